@@ -6,6 +6,10 @@ mod wal;
 fn main() {
     let args = common::parse_args();
     common::quiet_panics();
+    if args.mode == "stress" {
+        rd::run_stress(&args).write(&args.out);
+        return;
+    }
     let out = match args.prop.as_str() {
         "C01" => {
             // FileStorage-level cases, then Storage-level cases over a FileStorage with the crash oracle
